@@ -57,6 +57,10 @@ fn critical(sh: &Shared, m: usize, k: u32, tag: u64, cell: &Tracked<u64>) {
     if h > 1 {
         sched::fail("exclusion|two-guards", format!("two guards of mutex {m} exist at once"));
     }
+    if k == 0 {
+        // a critical section without accesses still lasts for a while: others may run inside it
+        sched::yield_now();
+    }
     for i in 0..k {
         let v = cell.read();
         let nv = v.wrapping_mul(31).wrapping_add(tag * 8 + u64::from(i));
@@ -159,7 +163,7 @@ impl Check for C01 {
         }
     }
     fn rule(&self) -> String {
-        "each case = one seeded run: 2..4 simulated threads with generated programs (<=6 ops of lock/try_lock/yield, 0..3 tracked read-modify-writes per critical section) over 1..2 Mutexes; the decision stream picks the scheduling strategy (random/sticky/PCT/starvation), the thread at every atomic op, futex call and tracked access, the waiter a wake picks, and up to 3 spurious futex returns / EINTRs. non-trivial = at least one thread parked in futex wait AND >=2 context switches; distinct = distinct hash of the full event sequence (thread, point kind, values read)".into()
+        "each case = one seeded run: 2..4 simulated threads with generated programs (<=6 ops of lock/try_lock/yield, 0..3 tracked read-modify-writes per critical section) over 1..2 Mutexes; the decision stream picks the scheduling strategy (random/sticky/PCT/starvation), the thread at every atomic op, futex call and tracked access, the waiter a wake picks, up to 3 spurious futex returns / EINTRs, and spurious failures of weak compare-exchange operations (1/4 or 1/16, up to 4). non-trivial = at least one thread parked in futex wait AND >=2 context switches; distinct = distinct hash of the full event sequence (thread, point kind, values read)".into()
     }
     fn assumptions(&self) -> Vec<String> {
         vec![
@@ -178,6 +182,10 @@ impl Check for C01 {
         let nm = 1 + sim.dec.choose(K::Cfg, 2) as usize;
         sim.spurious_futex_left = sim.dec.choose(K::Cfg, 4);
         sim.eintr_left = sim.dec.choose(K::Cfg, 4);
+        // spurious failures of weak compare-exchange (the quantifier names them; Mutex uses none
+        // today, a change that introduces one into try_lock must not fail spuriously)
+        sim.cas_spurious_left = sim.dec.choose(K::Cfg, 5);
+        sim.cas_spurious = [0, 4, 16][sim.dec.choose(K::Cfg, 3) as usize];
         let mut progs: Vec<Vec<Op>> = Vec::new();
         for _ in 0..nthreads {
             let len = 1 + sim.dec.choose(K::Op, 6) as usize;
@@ -211,7 +219,14 @@ impl Check for C01 {
         sched::run(&mut sim);
         if sim.violation.is_none() {
             for m in 0..nm {
-                let got = sh.mutexes[m].lock().peek();
+                // every guard is gone: the mutex must be free (a word left at 1 or 2 would park the
+                // next lock() for ever)
+                let Some(g) = sh.mutexes[m].try_lock() else {
+                    sim.violate("final|left-locked", format!("mutex {m} is still locked after every thread has dropped its guards"));
+                    break;
+                };
+                let got = g.peek();
+                drop(g);
                 if got != sh.model[m].get() {
                     sim.violate("visibility|final-value", format!("mutex {m}: data {got} != model {} (an update was lost)", sh.model[m].get()));
                 }
